@@ -87,6 +87,22 @@ CHECKS = {
              "chain (single parent, no merge), messages/authors/timestamps are not modelled.",
         tech="Lean 4 invariant proofs + differential correspondence + git CLI audit",
         ref="5/C09"),
+    "C11": dict(
+        text="The four RFC 4791 section 9.9 functions (apply_time_range_vevent/vtodo/vjournal/vfreebusy) are TRANSLATED "
+             "from /repo's source on every run (Except-monad Lean preserving Python's evaluation order) and proved equal "
+             "to the model, which is proved to decide the RFC tables for all instants and value kinds; the model of the "
+             "filter evaluator (comp/prop/param filters, is-not-defined at every level, text-match, prop time-range) is "
+             "proved to decide a proposition-level transcription of section 9.7 on every calendar object (three-level "
+             "component trees) and every nested filter. Tied to /repo by an exhaustive presence-pattern x value-form x "
+             "instant-grid x range-grid run through the real REPORT and by generated nested filters; a differing answer "
+             "is a violation because model = RFC is proved.",
+        note="component trees/values are what icalendar parses (computed by the harness); XML filter parsing is tied "
+             "by correspondence; recurrence (RRULE) is not generated; default zone UTC; the recorded finding "
+             "KF-C11-text-match-equality (equality instead of substring) is replayed deterministically; side conditions "
+             "of the theorem (VEVENT has DTSTART under a time-range, no time-range on VALARM) are evaluated per query "
+             "and queries outside them are counted, not judged.",
+        tech="Python->Lean translation + Lean 4 proof against an RFC 4791 spec + exhaustive order-type correspondence",
+        ref="5/C11"),
     "C12": dict(
         text="collation._match and the collations table are TRANSLATED from /repo's source on every run and proved equal "
              "to the model; the model of carddav.py's filter evaluation is proved to decide an independent, "
